@@ -431,3 +431,18 @@ def ir_wf_sel(s: Sel) -> bool:
             (len(s.relation.selectors) == 0 or sel_is_null(s.relation.selectors[0]) or
              (s.relation.selectors[0].rel_type is not None and rel_ok(s.relation.selectors[0].rel_type))) and
             ir_wf_list(s.relation) and wf_subs(s.selectors, 0) and wf_nths(s.nth, 0))
+
+
+# ---------------------------------------------------------------------------------------------- matcher set-up (C03, C11)
+
+def top_of(n: Node) -> Node:
+    """The node without a parent above n."""
+    if n is None:
+        return None
+    if parent(n) is None:
+        return n
+    return top_of(parent(n))
+
+
+def first_or_none(seq: SeqNode) -> Node:
+    return None if len(seq) == 0 else seq[0]
